@@ -19,6 +19,19 @@ ASSUMPTIONS = [
 ]
 
 PROPS = {
+
+    "C01": {"rule": 'histories of 1-40 operations (alloc with/without repetition, init-with-default, realloc to {0, same, +-1, exact fit, fit+-1, half, random, 2^32}, byte and typed writes, variable-length pack with a Borsh-derived and a hand-written packer, alloc-and-pack) over zeroed buffers of 0..300 bytes and 5 tags (two sharing a 7-byte prefix, one with leading and one with trailing zero bytes); state-aware targets (existing entry / missing type / one-past repetition); after every operation the result (value offset by pointer arithmetic, repetition number), an Adler-32 of the slab and 0-2 random queries (get bytes / typed get / list types / reopen, through the mutable, borrowed or owned view) are recorded; the final slab is compared in full; non-trivial = at least one successful mutation; distinct = distinct case terms (Coq cases) or distinct final slabs (monitor-only histories)', "partial": [], "masks": [],
+            "assumptions": ["histories start from a zeroed buffer (theorems: from any canonical slab)", "type tags are non-zero (the zero tag is the terminator)", "typed values are alignment-1 Pod types"]},
+    "C03": {"rule": 'histories of 1-40 operations (alloc with/without repetition, init-with-default, realloc to {0, same, +-1, exact fit, fit+-1, half, random, 2^32}, byte and typed writes, variable-length pack with a Borsh-derived and a hand-written packer, alloc-and-pack) over zeroed buffers of 0..300 bytes and 5 tags (two sharing a 7-byte prefix, one with leading and one with trailing zero bytes); state-aware targets (existing entry / missing type / one-past repetition); after every operation the result (value offset by pointer arithmetic, repetition number), an Adler-32 of the slab and 0-2 random queries (get bytes / typed get / list types / reopen, through the mutable, borrowed or owned view) are recorded; the final slab is compared in full; non-trivial = at least one successful mutation; distinct = distinct case terms (Coq cases) or distinct final slabs (monitor-only histories)', "partial": [], "masks": [],
+            "assumptions": ["histories start from a zeroed buffer", "type tags are non-zero"]},
+    "C04": {"rule": 'histories of 1-40 operations (alloc with/without repetition, init-with-default, realloc to {0, same, +-1, exact fit, fit+-1, half, random, 2^32}, byte and typed writes, variable-length pack with a Borsh-derived and a hand-written packer, alloc-and-pack) over zeroed buffers of 0..300 bytes and 5 tags (two sharing a 7-byte prefix, one with leading and one with trailing zero bytes); state-aware targets (existing entry / missing type / one-past repetition); after every operation the result (value offset by pointer arithmetic, repetition number), an Adler-32 of the slab and 0-2 random queries (get bytes / typed get / list types / reopen, through the mutable, borrowed or owned view) are recorded; the final slab is compared in full; non-trivial = at least one successful mutation; distinct = distinct case terms (Coq cases) or distinct final slabs (monitor-only histories)' + "; the C04 generator biases towards failing operations (missing entries, one-byte-short allocations, growth beyond free space)", "partial": [], "masks": ["after a failed variable-length pack only the bytes outside the entry's value region are required to be unchanged"],
+            "assumptions": ["histories start from a zeroed buffer", "type tags are non-zero"]},
+    "C02": {"rule": "byte strings: valid entry runs (table tags and random non-zero tags, value sizes 0..20 and the typed sizes) followed by every terminator shape "
+            "(nothing, 1-7 zeros, 8-11 zeros, zero tag + garbage, 1-11 non-zero bytes, zeros with one non-zero byte), single-byte mutations, truncation at any offset, "
+            "last length field set to exactly / one past the end / 0xffffffff; uniformly random strings 0..64; mostly-zero strings; queries: every table tag x repetitions 0..count+1 "
+            "x fixed sizes around the entry size, through the three view kinds, offsets by pointer arithmetic; non-trivial = accepted with at least one entry",
+            "partial": [], "masks": [],
+            "assumptions": ["fixed-size lookups use alignment-1 value types"]},
     "C11": {
         "rule": "seed lists from a structure-aware generator (every kind in every position, totals steered to 30..35 bytes, "
                 "literal lengths 0..300 with every value 250..290, 15/16/17 account-key seeds, u8 parameters biased to 0/1/127/128/255), "
